@@ -6,24 +6,33 @@ package signer
 // Fail closed (C06): a signer returns a signature if and only if the result is "succeeded"; batches position by position.
 // The standard implementation is verified against the same clauses (services/signer/standard).
 
+// C08 at the interface: the account that signs is a function of the service and of the name and key asked for; the
+// signature is valid under that account's key for the signing root of exactly the data handed over.
+//@ spec signerFor(self any, name string, pubKey []byte) any
+//@ spec nameAt(names []string, i int) string = if i < len(names) then names[i] else ""
+//@ spec keyAt(keys [][]byte, i int) []byte = if i < len(keys) then keys[i] else nil
+
 //@ iface Service.SignGeneric(self, ctx, credentials, accountName, pubKey, data)
 //@ requires [domaincap] data != nil ==> data.Domain == nil || cap(data.Domain) >= 4
 //@ requires [unlocked] !prelocked && (forall k [48]byte :: !held[k])
 //@ modifies tokroot, db, checkedset, deniedset, held, prelocked
 //@ ensures [released] !prelocked && (forall k [48]byte :: !held[k])
 //@ ensures [failclosed] (result0 == core.ResultSucceeded) <==> (result1 != nil)
+//@ ensures [exact] result0 == core.ResultSucceeded ==> data != nil && validSig(pkOfAcc(signerFor(self, accountName, pubKey)), genRootOf(data), bytes(result1))
 //@ iface Service.SignBeaconAttestation(self, ctx, credentials, accountName, pubKey, data)
 //@ requires [domaincap] data != nil ==> data.Domain == nil || cap(data.Domain) >= 4
 //@ requires [unlocked] !prelocked && (forall k [48]byte :: !held[k])
 //@ modifies tokroot, db, checkedset, deniedset, held, prelocked
 //@ ensures [released] !prelocked && (forall k [48]byte :: !held[k])
 //@ ensures [failclosed] (result0 == core.ResultSucceeded) <==> (result1 != nil)
+//@ ensures [exact] result0 == core.ResultSucceeded ==> data != nil && validSig(pkOfAcc(signerFor(self, accountName, pubKey)), attRootOf(data), bytes(result1))
 //@ iface Service.SignBeaconProposal(self, ctx, credentials, accountName, pubKey, data)
 //@ requires [domaincap] data != nil ==> data.Domain == nil || cap(data.Domain) >= 4
 //@ requires [unlocked] !prelocked && (forall k [48]byte :: !held[k])
 //@ modifies tokroot, db, checkedset, deniedset, held, prelocked
 //@ ensures [released] !prelocked && (forall k [48]byte :: !held[k])
 //@ ensures [failclosed] (result0 == core.ResultSucceeded) <==> (result1 != nil)
+//@ ensures [exact] result0 == core.ResultSucceeded ==> data != nil && validSig(pkOfAcc(signerFor(self, accountName, pubKey)), propRootOf(data), bytes(result1))
 //@ iface Service.Multisign(self, ctx, credentials, accountNames, pubKeys, data)
 //@ requires [lens] len(accountNames) <= len(data) && len(pubKeys) <= len(data)
 //@ requires [domaincap] forall j int :: 0 <= j && j < len(data) && data[j] != nil ==> data[j].Domain == nil || cap(data[j].Domain) >= 4
@@ -32,6 +41,7 @@ package signer
 //@ ensures [released] !prelocked && (forall k [48]byte :: !held[k])
 //@ ensures [len] len(result0) >= 1 && (len(result1) == 0 || len(result1) == len(result0)) && (len(data) > 0 ==> len(result0) == len(data))
 //@ ensures [failclosed] forall i int :: 0 <= i && i < len(result0) ==> ((result0[i] == core.ResultSucceeded) <==> (i < len(result1) && result1[i] != nil))
+//@ ensures [exact] forall i int :: 0 <= i && i < len(result0) && result0[i] == core.ResultSucceeded ==> i < len(data) && validSig(pkOfAcc(signerFor(self, nameAt(accountNames, i), keyAt(pubKeys, i))), genRootOf(data[i]), bytes(result1[i]))
 //@ iface Service.SignBeaconAttestations(self, ctx, credentials, accountNames, pubKeys, data)
 //@ requires [lens] len(accountNames) <= len(data) && len(pubKeys) <= len(data)
 //@ requires [domaincap] forall j int :: 0 <= j && j < len(data) && data[j] != nil ==> data[j].Domain == nil || cap(data[j].Domain) >= 4
@@ -40,3 +50,4 @@ package signer
 //@ ensures [released] !prelocked && (forall k [48]byte :: !held[k])
 //@ ensures [len] len(result0) >= 1 && (len(result1) == 0 || len(result1) == len(result0)) && (len(data) > 0 ==> len(result0) == len(data))
 //@ ensures [failclosed] forall i int :: 0 <= i && i < len(result0) ==> ((result0[i] == core.ResultSucceeded) <==> (i < len(result1) && result1[i] != nil))
+//@ ensures [exact] forall i int :: 0 <= i && i < len(result0) && result0[i] == core.ResultSucceeded ==> i < len(data) && validSig(pkOfAcc(signerFor(self, nameAt(accountNames, i), keyAt(pubKeys, i))), attRootOf(data[i]), bytes(result1[i]))
